@@ -48,9 +48,16 @@ def run(ctx):
 ID_FIELD = {"Imu": "gyro", "Mag": "mag", "Attitude": "q"}
 
 
+FOREIGN = []  # deliveries that reached a subscriber of an *earlier* core (several cores live in one process)
+CURRENT = {"hid": None}
+
+
 def bus_history(ctx, simpy, uros, msgs, rng, k):
     types = {"Imu": msgs.Imu, "Mag": msgs.Mag, "Attitude": msgs.Attitude}
     core = uros.Core()
+    hid = (ctx.shard, k)
+    CURRENT["hid"] = hid
+    n_foreign0 = len(FOREIGN)
     H = []  # the history: tuples, appended in real order
 
     ntop = int(rng.integers(2, 8))
@@ -104,6 +111,9 @@ def bus_history(ctx, simpy, uros, msgs, rng, k):
         me = "s%d" % sid[0]
 
         def cb(m, me=me, topic=topic, typ=typ):
+            if CURRENT["hid"] != hid:  # this subscriber belongs to a core built earlier in this process
+                FOREIGN.append((hid, CURRENT["hid"], topic, me))
+                return
             H.append(("deliver", topic, float(m.data[ID_FIELD[typ]][0]), now(), me))
             if topic in nested and me == subs_of[topic][0]:
                 do_publish(nested[topic])
@@ -142,6 +152,21 @@ def bus_history(ctx, simpy, uros, msgs, rng, k):
     for i in range(int(rng.integers(1, 4))):
         nodes.append(Node("n%d" % i, int(rng.integers(1, 4))))
 
+    # before the logger exists (it listens to everything): a wrong-type message must be rejected on every topic,
+    # also on topics nobody subscribes to
+    pre_bad = []
+    for t in topics:
+        other = [x for x in types if x != ttype[t]][0]
+        n_before = len(H)
+        try:
+            pubs[t].publish(types[other]())
+            pre_bad.append((t, len(subs_of[t]), "accepted"))
+        except ValueError:
+            if len(H) != n_before:
+                pre_bad.append((t, len(subs_of[t]), "delivered"))
+        except Exception as e:
+            pre_bad.append((t, len(subs_of[t]), type(e).__name__))
+    ctx.check("wrong_type_rejected_on_every_topic", "Publisher", not pre_bad, {"topics": ttype, "problems": pre_bad[:4]})
     logger = uros.Logger(core)
     core.init_params()
     locked_ok = False
@@ -204,6 +229,8 @@ def bus_history(ctx, simpy, uros, msgs, rng, k):
         return
     check_history(ctx, H, subs_of, ttype, case)
     ctx.check("parameters_seen_by_every_follower", "params", not param_fail, {"case": case, "mismatches": param_fail[:3]})
+    ctx.check("no_delivery_to_nodes_of_another_core", "Core", len(FOREIGN) == n_foreign0, {"case": case, "foreign_deliveries": [str(f) for f in FOREIGN[n_foreign0:n_foreign0 + 3]],
+                                                                                         "count": len(FOREIGN) - n_foreign0})
     ctx.tally("parameter_broadcasts", len(sets))
     check_log(ctx, logger, H, sets, ttype, tf, case)
     ctx.distinct(np.array([[ntop, len(nested), tf, base, sum(len(v) for v in subs_of.values()), len(H)]], dtype=float))
